@@ -4,10 +4,15 @@
 From Coq Require Import Extraction ExtrOcamlBasic.
 From Verif Require Import Base.Bytes Base.Val.
 From Verif Require Cobs.Model.
+From Verif Require Store.Model Store.Check.
 
 (* area id -> checker *)
 Definition dispatch (area : N) (v : val) : N :=
   match area with
+  | 1%N => Store.Check.check_c01 v
+  | 3%N => Store.Check.check_c03 v
+  | 5%N => Store.Check.check_c05 v
+  | 6%N => Store.Check.check_c06 v
   | 16%N => Cobs.Model.check_val v
   | _ => 98%N
   end.
